@@ -184,6 +184,12 @@ def install(env: SimEnv) -> None:
         IP = _FakeIP
 
     m8.ifaddr = _Ifaddr
+
+    async def _default_local_ip(remote_ip: str = "224.0.23.12"):
+        # the real function opens a UDP socket and asks the kernel for the route: simulated by the first adapter
+        return _CURRENT.adapters[0][1] if _CURRENT.adapters else None
+
+    m8.get_default_local_ip = _default_local_ip
     m9.UDPTransport.create_multicast_sock = staticmethod(FakeMcastSock)
     # quiet the library's loggers (its own "unexpected error" guards are counted separately)
     import logging
